@@ -145,7 +145,7 @@ def parseRole : String → Option Role
 
 def showResp (r : Resp) : String :=
   let f := " ".intercalate (r.fields.map fun (k, v) => k ++ "=" ++ v)
-  let e := ";".intercalate r.events
+  let e := ";".intercalate (r.events.map fun e => s!"{e.name} {Bytes.toHexArg e.bucket} {Bytes.toHexArg e.key} {e.size} {Bytes.toHexArg e.etag}")
   s!"code={r.code} {f} | {e}"
 
 /-- `gw reset <readonly> <versioning> <rootaccess>` · `gw acct <access> <secret> <role>` ·
@@ -154,6 +154,13 @@ def handle (d : DState) : List String → DState × Option String
   | ["reset", ro, v, root] =>
     match Bytes.ofHex root with
     | some r => ({ cfg := { readonly := ro = "1", versioning := v = "1", rootAccess := r }, st := {} }, some "ok")
+    | none => (d, none)
+  | ["filter", f] =>
+    if f = "~" then ({ d with cfg := { d.cfg with eventFilter := none } }, some "ok") else
+    match parseList f "," (fun e => match e.splitOn "=" with
+        | [k, v] => some (k, decide (v = "1"))
+        | _ => none) with
+    | some m => ({ d with cfg := { d.cfg with eventFilter := some m } }, some "ok")
     | none => (d, none)
   | ["cfg", ro, v] => ({ d with cfg := { d.cfg with readonly := ro = "1", versioning := v = "1" } }, some "ok")
   | ["acct", a, sec, role] =>
